@@ -4,6 +4,7 @@ import SamVerif.Model.CpeSem
 import SamVerif.Model.TailStmt
 import SamVerif.Model.CpeProg
 import SamVerif.Model.VecRt
+import SamVerif.Model.DataSeg
 import Driver.Util
 /-! Line-protocol driver for property C01 (model side): protocols `layout`, `tailrec`, `cpe`.
 Each line carries, after `##`, the model-side description of the same input that the harness
@@ -568,6 +569,27 @@ partial def vecrtRun (v : Vec) (out : List String) : List String → String
     | .trap => ",".intercalate out ++ "|trap"
   | _ => "bad-model-line"
 
+/-! ### dataseg: the WAT literal of the string data segment -/
+def isInfix (xs ys : List Nat) : Bool :=
+  (List.range (ys.length + 1 - xs.length)).any fun i => (ys.drop i).take xs.length == xs
+
+open DataSeg in
+/-- `dataseg <hex of the literal's text> <hex of constant>*`: assemble the text, print the bytes again
+(must give the same text) and look for every constant's bytes in the assembled segment. -/
+def datasegLine (rest : String) : String :=
+  match words rest with
+  | textHex :: consts =>
+    match String.fromUTF8? (ByteArray.mk (bytesOfHex textHex).toArray) with
+    | none => "bad-text"
+    | some text =>
+      match assemble text.toList with
+      | none => "unassemblable"
+      | some bs =>
+        let back := printBytes bs
+        let found := consts.filter fun c => isInfix ((bytesOfHex c).map (·.toNat)) bs
+        s!"roundtrip={back == text.toList} bytes={bs.length} found={found.length}/{consts.length}"
+  | [] => "bad-model-line"
+
 def step (_ : Unit) (line : String) : Unit × String :=
   let line := line.trimAscii.toString
   let (k, rest) := match line.splitOn " " with
@@ -580,6 +602,7 @@ def step (_ : Unit) (line : String) : Unit × String :=
        else if k == "tailstmt" then tailstmtLine rest
        else if k == "cpeprog" then cpeprogLine rest
        else if k == "lirloop" then lirloopLine rest
+       else if k == "dataseg" then datasegLine rest
        else if k == "vecrt" then vecrtRun VecRt.empty [] (words rest)
        else "bad-line")
 
